@@ -27,6 +27,14 @@ def dof_mode1(dim):
     return lambda i: max(1, dim - 1) if i % 2 == 1 else dim
 
 
+def dof_mode3(dim):
+    return lambda i: max(1, dim - 1) if i % 2 == 0 else dim
+
+
+def dof_for(kind, dim):
+    return dof_mode1(dim) if kind == 'gen1' else (dof_mode3(dim) if kind == 'gen3' else dof_ident(dim))
+
+
 def ref_layout(order, N, dim, fl, dof):
     """Independent reference of the decision-vector layout (the statement of C09):
     returns (points: index -> (offset, dof), blocks: field -> offset, total dimension)."""
@@ -114,11 +122,11 @@ class EvalSetup:
         s = self.s = D.Script()
         self.op = OptProblem(s, '', o, d, N, rng)
         self.pr = self.op.pr
-        gmode = {'gen0': 0, 'gen1': 1, 'gen2': 2}.get(kind)
-        dof = dof_mode1(d) if kind == 'gen1' else dof_ident(d)
+        gmode = {'gen0': 0, 'gen1': 1, 'gen2': 2, 'gen3': 3, 'gen0T': 0}.get(kind)
+        dof = dof_for(kind, d)
         self.pts, self.blocks, self.n = ref_layout(o, N, d, fl, dof)
         self.xs = self.op.xvars(self.n, tau_sign=tau_sign)
-        if kind in ('tident', 'gen0', 'gen1', 'gen2'):
+        if kind in ('tident', 'gen0', 'gen1', 'gen2', 'gen3', 'gen0T'):
             # identity / user time maps: keep the durations positive
             for i in range(N):
                 s.shadows[self.xs[i]] = abs(s.shadows[self.xs[i]]) + 0.3
@@ -133,7 +141,7 @@ class EvalSetup:
         if gmode is not None:
             self.tm = (s.var('tmk', round(rng.uniform(0.5, 1.5), 3)), s.var('tmc', round(rng.uniform(0.05, 0.3), 3)))
             self.sm = (s.var('sm0', round(rng.uniform(0.6, 1.6), 3)), s.var('sm1', round(rng.uniform(-0.8, 0.8), 3)), s.var('smb', round(rng.uniform(-1, 1), 3)), s.var('smq', 0.25))
-            s.add('opt.tmap TMU', *self.tm)
+            s.add('opt.tmap TMU', *self.tm, 1 if kind == 'gen0T' else 0)
             s.add('opt.smap SMU', gmode, *self.sm)
             s.add('opt.settmap O TMU')
             s.add('opt.setsmap O SMU')
@@ -155,7 +163,7 @@ class EvalSetup:
             x = E.var(self.xs[i])
             if self.kind == 'ident':
                 fs.append(x > 0 if tau_sign > 0 else x <= 0)
-            elif self.kind == 'tident':
+            elif self.kind in ('tident', 'gen0T'):
                 fs.append(x > 0)
         if self.kind.startswith('gen'):
             fs += [E.var('tmk') > 0, E.var('tmc') > 0]
